@@ -14,7 +14,7 @@ mpath = os.path.join(VERIF, "seeded", "matrix.json")
 matrix = json.load(open(mpath)) if os.path.exists(mpath) else {}
 assert subprocess.run(["git", "-C", "/repo", "status", "--porcelain", "--untracked-files=no"], capture_output=True, text=True).stdout.strip() == "", "/repo not clean"
 for sd in seeds:
-    checks = [sd] if mode == "own" else allp if mode == "all" else mode.split(",")
+    checks = [sd[:3]] if mode == "own" else allp if mode == "all" else mode.split(",")
     patch = os.path.join(VERIF, "seeded", sd, "patch.diff")
     subprocess.run(["git", "-C", "/repo", "apply", patch], check=True)
     try:
